@@ -171,7 +171,7 @@ def _range_worker(args):
         if all(c01._covered(k, dep) and c01._covered(k, wu[x]) for k in (R | Rs)):
             sym = set()
         if sym:
-            chk.violation(G2, '%s|%s|getter/snapshot' % (gen, x), wg,
+            chk.violation(G2, '%s|%s|getter %s / snapshot %s' % (gen, x, ','.join(_S(R)), ','.join(_S(Rs))), wg,
                           '%s: %s() reads %s but snapshot().%s reads %s: the two observers can disagree' % (
                               inst, x, _S(R), x, _S(Rs)))
         else:
